@@ -381,10 +381,37 @@ def unresolved_names(diags):
     return out
 
 
+def aid_renames_from(unit, diags):
+    """E0425 `cannot find value X` inside a proof aid, for which the compiler suggests `self.X`: {X: 'self.X'}"""
+    out = {}
+    for d in diags:
+        if d.get('level') != 'error' or (d.get('code') or {}).get('code') != 'E0425':
+            continue
+        mm = re.search(r'cannot find value `(\w+)` in this scope', d.get('message', ''))
+        if not mm:
+            continue
+        prim = next((s_ for s_ in d.get('spans', []) if s_.get('is_primary')), None)
+        if prim is None:
+            continue
+        c = unit.chunk_at(prim['byte_start'])
+        org = c.origin if c else {}
+        if not (org.get('k') == 'clause' and org.get('section') in ('hint', 'invariant')):
+            continue
+        for ch in d.get('children', []):
+            for sp in ch.get('spans', []):
+                if sp.get('suggested_replacement') in ('self.' + mm.group(1), 'self.'):
+                    out[mm.group(1)] = 'self.' + mm.group(1)
+    return out
+
+
+AID_RENAMES = {}
+
+
 def build(name, inline=()):
     unit = extract.Unit(name, REPO)
     unit.inline_names = set(inline)
     unit.tmpl_props = {}
+    unit.aid_renames = dict(AID_RENAMES.get(name, {}))
     extract.process_template(unit, os.path.join(CONTRACTS, name + '.vrs'), PRELUDE)
     # per-lemma property tags: `proof fn name(..) //#C10,C02`
     for c in unit.chunks:
@@ -403,6 +430,7 @@ def build_late(name, inline=(), drop_aids=(), late=True):
     unit.inline_names = set(inline)
     unit.tmpl_props = {}
     unit.late_hints = late
+    unit.aid_renames = dict(AID_RENAMES.get(name, {}))
     unit.drop_aids = set(drop_aids)
     extract.process_template(unit, os.path.join(CONTRACTS, name + '.vrs'), PRELUDE)
     for c in unit.chunks:
@@ -422,6 +450,7 @@ def build_probe(name, inline=()):
     unit.tmpl_props = {}
     unit.probe = True
     unit.inline_names = set(inline)
+    unit.aid_renames = dict(AID_RENAMES.get(name, {}))
     extract.process_template(unit, os.path.join(CONTRACTS, name + '.vrs'), PRELUDE)
     data = unit.finish()
     return unit, data
@@ -440,6 +469,11 @@ def run_unit(name, tier, want_probe=True):
         missing = unresolved_names(pre['diags'])
         missing -= inline
         if not missing:
+            rn = aid_renames_from(unit, pre['diags'])
+            if rn and rn != AID_RENAMES.get(name):
+                AID_RENAMES[name] = rn
+                unit, data = build(name, inline)
+                continue
             break
         inline |= missing
         unit, data = build(name, inline)
